@@ -11,6 +11,8 @@ pub enum Ev {
     BadDealloc { ptr: usize, size: usize, align: usize, asize: usize, aalign: usize },
     /// dealloc of a pointer that is not a live allocation
     UnknownDealloc { ptr: usize },
+    /// the red zone behind a block was written to
+    Overrun { ptr: usize, size: usize },
     /// allocation refused by fault injection
     AllocFail { size: usize, align: usize },
     Dtor { id: u64 },
@@ -145,6 +147,30 @@ pub fn overflowed() -> bool {
     OVERFLOW.load(SeqCst)
 }
 
+/// bytes of red zone behind every block
+pub const RED: usize = 32;
+unsafe fn redzone_intact(p: *mut u8, size: usize) -> bool {
+    (0..RED).all(|i| *p.add(size + i) == 0xCB)
+}
+/// look at the red zone of every block that is still live (leaked blocks are never released): how many were overrun.
+/// The red zones found damaged are repaired so that one overrun is reported once.
+pub fn check_redzones() -> u64 {
+    let mut n = 0;
+    unsafe {
+        for i in 0..LCAP {
+            let q = LIVE_PTR[i];
+            if q != 0 && q != TOMB {
+                let p = q as *mut u8;
+                if !redzone_intact(p, LIVE_SIZE[i]) {
+                    n += 1;
+                    std::ptr::write_bytes(p.add(LIVE_SIZE[i]), 0xCB, RED);
+                }
+            }
+        }
+    }
+    n
+}
+
 pub struct Tracking;
 
 unsafe impl GlobalAlloc for Tracking {
@@ -163,10 +189,13 @@ unsafe impl GlobalAlloc for Tracking {
             push(Ev::AllocFail { size: l.size(), align: l.align() });
             return std::ptr::null_mut();
         }
-        let p = System.alloc(l);
+        // every block is followed by a red zone: a write past the end of what was requested is seen at release, or at
+        // the end of the case for blocks that are leaked (`check_redzones`)
+        let p = System.alloc(Layout::from_size_align_unchecked(l.size() + RED, l.align()));
         if !p.is_null() {
             // fill with a recognisable pattern so that reads of uninitialised payload are visible
             std::ptr::write_bytes(p, 0xA5, l.size());
+            std::ptr::write_bytes(p.add(l.size()), 0xCB, RED);
             live_insert(p as usize, l.size(), l.align());
             push(Ev::Alloc { ptr: p as usize, size: l.size(), align: l.align() });
         }
@@ -176,16 +205,19 @@ unsafe impl GlobalAlloc for Tracking {
     unsafe fn dealloc(&self, p: *mut u8, l: Layout) {
         match live_remove(p as usize) {
             Some((s, a)) => {
+                if !redzone_intact(p, s) {
+                    push_always(Ev::Overrun { ptr: p as usize, size: s });
+                }
                 if s != l.size() || a != l.align() {
                     push_always(Ev::BadDealloc { ptr: p as usize, size: l.size(), align: l.align(), asize: s, aalign: a });
                     // release with the layout it was allocated with so that the process survives
                     std::ptr::write_bytes(p, 0xDD, s);
-                    System.dealloc(p, Layout::from_size_align_unchecked(s, a));
+                    System.dealloc(p, Layout::from_size_align_unchecked(s + RED, a));
                     return;
                 }
                 push(Ev::Dealloc { ptr: p as usize, size: s, align: a });
                 std::ptr::write_bytes(p, 0xDD, s);
-                System.dealloc(p, l);
+                System.dealloc(p, Layout::from_size_align_unchecked(s + RED, a));
             }
             None => {
                 push_always(Ev::UnknownDealloc { ptr: p as usize });
